@@ -353,32 +353,33 @@ func (g *gen) selectLoop() {
 	g.w("data%d := make(chan int%s)", n, g.buf())
 	g.w("quit%d := make(chan bool)", n)
 	g.w("out%d := make(chan int)", n)
+	g.w("all%d := make(chan bool)", n)
 	g.w("go func() {")
-	g.w("\tsum := 0")
+	g.w("\tsum, cnt := 0, 0")
 	g.w("\tfor {")
 	g.w("\t\tselect {")
 	g.w("\t\tcase v := <-data%d:", n)
 	g.w("\t\t\tsum += v")
+	g.w("\t\t\tcnt++")
+	g.w("\t\t\tif cnt == %d {", items)
+	g.w("\t\t\t\tall%d <- true", n)
+	g.w("\t\t\t}")
 	g.w("\t\tcase <-quit%d:", n)
 	g.w("\t\t\tout%d <- sum", n)
 	g.w("\t\t\treturn")
 	g.w("\t\t}")
 	g.w("\t}")
 	g.w("}()")
-	g.w("ack%d := make(chan bool)", n)
 	g.w("go func() {")
 	g.w("\tfor i := 1; i <= %d; i++ {", items)
 	g.w("\t\tselect {")
 	g.w("\t\tcase data%d <- i * i:", n)
 	g.w("\t\t}")
 	g.w("\t}")
-	g.w("\tack%d <- true", n)
 	g.w("}()")
-	g.w("<-ack%d", n)
-	// all data sent but possibly still buffered: wait until drained
-	g.w("for len(data%d) > 0 {", n)
-	g.w("\tyield()")
-	g.w("}")
+	// the consumer reports when it has received every item (no busy
+	// waiting: the program must not rely on a fair scheduler)
+	g.w("<-all%d", n)
 	g.w("quit%d <- true", n)
 	g.w("println(\"B%d selloop\", <-out%d)", n, n)
 }
